@@ -377,10 +377,10 @@ func checkC08(rc *RunCtx) *Report {
 							w.ReapCalls()
 							synctest.Wait()
 							out.Numbers["placements_scripted"]++
-						out.Numbers["progress_units"] += int64(n)
-						if k1 == 1 && k2 == 1 && k3 == 0 {
-							rep.Sample(6, map[string]interface{}{"request": r.Name, "scripted_controller": sc.Name, "updates_after_create": k1, "updates_before_replay_read": k2, "updates_between_read_and_return": k3, "updates_afterwards": n - k1 - k2 - k3, "answered": call.Done, "code": status.Code(call.Err).String()})
-						}
+							out.Numbers["progress_units"] += int64(n)
+							if k1 == 1 && k2 == 1 && k3 == 0 {
+								rep.Sample(6, map[string]interface{}{"request": r.Name, "scripted_controller": sc.Name, "updates_after_create": k1, "updates_before_replay_read": k2, "updates_between_read_and_return": k3, "updates_afterwards": n - k1 - k2 - k3, "answered": call.Done, "code": status.Code(call.Err).String()})
+							}
 							if os.Getenv("VERIF_DEBUG") != "" {
 								fmt.Printf("A %s / %s k1=%d k2=%d k3=%d held=%v,%v done=%v err=%v panic=%q\n", r.Name, sc.Name, k1, k2, k3, held1, held2, call.Done, call.Err, call.Panic)
 							}
@@ -473,10 +473,10 @@ func checkC08(rc *RunCtx) *Report {
 							}
 						}
 						out.Numbers["placements_real"]++
-					out.Numbers["progress_units"] += int64(steps)
-					if k1 == 2 && k2 == 3 && k3 == 1 {
-						rep.Sample(12, map[string]interface{}{"request": br.Req.Name, "controllers": "real", "effectful_steps_after_create": k1, "before_replay_read": k2, "between_read_and_return": k3, "total_effectful_steps": steps, "answered": call.Done, "code": status.Code(call.Err).String()})
-					}
+						out.Numbers["progress_units"] += int64(steps)
+						if k1 == 2 && k2 == 3 && k3 == 1 {
+							rep.Sample(12, map[string]interface{}{"request": br.Req.Name, "controllers": "real", "effectful_steps_after_create": k1, "before_replay_read": k2, "between_read_and_return": k3, "total_effectful_steps": steps, "answered": call.Done, "code": status.Code(call.Err).String()})
+						}
 						if os.Getenv("VERIF_DEBUG") != "" {
 							fmt.Printf("B %s k1=%d k2=%d k3=%d total=%d steps=%d held=%v,%v done=%v err=%v\n", br.Req.Name, k1, k2, k3, total, steps, held1, held2, call.Done, call.Err)
 						}
